@@ -280,6 +280,29 @@ func checkC02(e *core.Env) {
 		}
 	})
 
+	// codes that the standard transport cannot carry (calibration would drop them) are judged directly: a unary
+	// call reports exactly the code and message the handler returned
+	e.Cases("big-codes", e.N(24, 240), func(i int, r *rand.Rand) {
+		c := cs.list[i%len(cs.list)]
+		code := pick(r, uint32(1<<31-1), uint32(1<<31), uint32(1<<31+5), uint32(1<<32-1), uint32(17), uint32(1000))
+		sc := genDeliveryScript(r, Unary, c.HTTP, false)
+		sc.Ret = Ret{How: "status", Code: code, Msg: pick(r, "m", "a:b", "")}
+		run, ok, dump := execScript(c, sc, nil)
+		if !ok {
+			hangVerdict(e, "C02", cs, c, sc, run, dump)
+			return
+		}
+		e.Eval(fmt.Sprintf("big-codes|%s|%d", c.Name, code), true)
+		out := run.ClientOutcome()
+		if _, ran := run.HandlerReturn(); !ran || !out.Seen {
+			return
+		}
+		st, isStatus := status.FromError(out.Err)
+		if out.OK || !isStatus || uint32(st.Code()) != code || st.Message() != sc.Ret.Msg {
+			e.Violate(fmt.Sprintf("%s/unary/mismatch/big-code", c.Name), fmt.Sprintf("handler returned code %d message %q; client saw %v", code, sc.Ret.Msg, out.Err), witness(run))
+		}
+	})
+
 	e.Cases("codec", e.N(40, 200), func(i int, r *rand.Rand) {
 		kind := Kind(i % 4)
 		for _, c := range cs.list {
